@@ -210,6 +210,7 @@ class Contract:
             m = re.match(r'\[([^|\]]*)\|([^\]]*)\]\s*(.*)$', ln.strip())
             if not m: raise ExtractError('bad inv line in %s: %s' % (self.path, ln))
             conj.append((m.group(1).strip(), m.group(2).strip(), m.group(3).strip()))
+        self.conj = conj
         absx = '%s { %s }' % (O0 + ('::<%s>' % xg if xg else ''), ', '.join('%s: %s' % (f, e) for f, _, e in own))
         spec = ['    type S = %s;' % S,
                 '    open spec fn abs(&self) -> %s { (self.view.abs(), %s) }' % (S, absx),
@@ -444,6 +445,11 @@ def process_file(em, path, report):
             m = re.match(r'pub struct (\w+)', h)
             struct_name = m.group(1)
             fields = re.sub(r'\n(\s+)(\w+): ', r'\n\1pub \2: ', '\n' + body.strip('\n'))
+            for bf in re.findall(r'(\w+): (?:Vec|VecDeque)<', body):
+                invtxt = '\n'.join(l for l in (vc.sec.get('implspec', [])) if True)
+                bounded = any(('C18' in o['tags'] and re.search(r'\.%s@' % bf, o['text'])) for o in [dict(tags=re.findall(r'C\d+', c[1]), text=c[2]) for c in getattr(vc, 'conj', [])])
+                if not bounded:
+                    report.setdefault('unbounded_buffers', []).append('%s.%s' % (struct_name, bf))
             em.add(h + ' {' + fields + '\n}')
         elif h.startswith('impl'):
             is_trait = bool(re.search(r'\bView for\b', h))
